@@ -199,6 +199,11 @@ fn execute_inner(sc: &Scenario) -> ExecOutcome {
     let mut any_close = false;
     let mut step_guard = 0;
     let mut events: Vec<String> = vec![];
+    let trace = std::env::var("VERIF_C07_TRACE").is_ok();
+    // names for which an upstream TCP transmission could belong to more than one client exchange:
+    // on a shared TCP connection the forwarder renumbers a query whose id is in use, so the id no
+    // longer tells same-name exchanges apart; their group is then judged as a whole
+    let mut ambiguous_names: std::collections::BTreeSet<String> = Default::default();
 
     // upstream transmissions are attributed to client queries by (question name, upstream id):
     // the k-th distinct id seen for a name belongs to the k-th client asking that name
@@ -254,6 +259,9 @@ fn execute_inner(sc: &Scenario) -> ExecOutcome {
                     }
                     let seq = items.len();
                     let owner = owner_of(&mut exch, &clients, &m);
+                    if trace {
+                        eprintln!("    [{:?}] upstream sees UDP item{seq}: {} id {:#06x} from {src} -> owner {owner}", rig_now, rd::name_str(&m.question[0].0), m.id);
+                    }
                     items.push(Item { via: Via::Udp(src), query: m, done: false, held: false, rest: None, seq, owner, seen_at: rig_now });
                 }
                 Err(e) => out.violations.push(("upstream-query-malformed".into(), format!("query sent upstream is malformed: {e}"), vec![])),
@@ -270,6 +278,15 @@ fn execute_inner(sc: &Scenario) -> ExecOutcome {
                     Ok((m, _)) => {
                         let seq = items.len();
                         let owner = owner_of(&mut exch, &clients, &m);
+                        {
+                            let key = rd::name_str(&m.question[0].0).to_ascii_lowercase();
+                            if clients.iter().filter(|c| c.sent_at.is_some() && rd::name_str(&c.qname).to_ascii_lowercase() == key).count() > 1 {
+                                ambiguous_names.insert(key);
+                            }
+                        }
+                        if trace {
+                            eprintln!("    [{:?}] upstream sees TCP item{seq} on conn{ci}: {} id {:#06x} -> owner {owner}", rig_now, rd::name_str(&m.question[0].0), m.id);
+                        }
                         items.push(Item { via: Via::Tcp(ci), query: m, done: false, held: false, rest: None, seq, owner, seen_at: rig_now });
                     }
                     Err(e) => out.violations.push(("upstream-query-malformed".into(), format!("TCP query sent upstream is malformed: {e}"), vec![])),
@@ -413,6 +430,15 @@ fn execute_inner(sc: &Scenario) -> ExecOutcome {
         let ch = if menu.len() > 1 { choose(&labels) } else { 0 };
         let act = (menu[ch].1)();
         events.push(labels[ch].clone());
+        if trace {
+            eprintln!("    [{:?}] action: {} (of {:?})", now, labels[ch], labels);
+            for (i, c) in clients.iter().enumerate() {
+                let n = c.udp.as_ref().map(|u| u.rx.len()).or(c.tcp.as_ref().map(|t| t.conn.frames_in.len())).unwrap_or(0);
+                if n > 0 {
+                    eprintln!("        client {i} has {n} reply(ies)");
+                }
+            }
+        }
         drop(menu);
         // ---- act
         match act {
@@ -644,7 +670,7 @@ fn execute_inner(sc: &Scenario) -> ExecOutcome {
                 let group: Vec<usize> = clients
                     .iter()
                     .enumerate()
-                    .filter(|(j, cj)| *j == i || (rd::name_str(&cj.qname).to_ascii_lowercase() == key && (exch[*j].qids.is_empty() || exch[i].qids.is_empty() || exch[*j].qids.iter().any(|q| exch[i].qids.contains(q)))))
+                    .filter(|(j, cj)| *j == i || (rd::name_str(&cj.qname).to_ascii_lowercase() == key && (ambiguous_names.contains(&key) || exch[*j].qids.is_empty() || exch[i].qids.is_empty() || exch[*j].qids.iter().any(|q| exch[i].qids.contains(q)))))
                     .map(|(j, _)| j)
                     .collect();
                 let had_ok = group.iter().all(|j| exch[*j].usable_ok);
